@@ -538,6 +538,51 @@ example :
     Container.iterPossibleStack (combinedOps toy) c false 1 = [0, 0] := by
   decide
 
+/-! ## Off-loaded filter whose bytes cannot be read -/
+
+/-- the probing loop answers `NotContains` only on the evidence of a byte that was really read and whose bit is
+    clear: a read that fails (`readByte … = none`: I/O error, file cut under the running session) can never be the
+    reason for "definitely absent" -/
+theorem probe_file_absent_has_witness (readByte : Nat → Option Nat) (start : Nat) (ps : List Nat)
+    (hn : Bloom.probeFile readByte start ps = .notContains) :
+    ∃ i ∈ ps, ∃ byte, readByte (start + (offsetAndMaskU8 i).1) = some byte ∧
+      getBitU8 byte (offsetAndMaskU8 i).2 = false := by
+  induction ps with
+  | nil => simp [Bloom.probeFile] at hn
+  | cons i rest ih =>
+    unfold Bloom.probeFile at hn
+    simp only at hn
+    cases hr : readByte (start + (offsetAndMaskU8 i).1) with
+    | none => rw [hr] at hn; simp at hn
+    | some byte =>
+      rw [hr] at hn
+      simp only at hn
+      by_cases hb : getBitU8 byte (offsetAndMaskU8 i).2 = true
+      · rw [if_pos hb] at hn
+        obtain ⟨j, hj, w, hw⟩ := ih hn
+        exact ⟨j, List.mem_cons_of_mem _ hj, w, hw⟩
+      · exact ⟨i, List.mem_cons_self, byte, hr, by simpa using hb⟩
+
+/-- an index file none of whose filter bytes can be read: the off-loaded filter asks for the additional check,
+    for every key (seeded change C10-10 turned this answer into `NotContains`) -/
+theorem bloom_unreadable_file_needs_check (h : Nat → Key → Nat) (b : Bloom) (key : Key)
+    (readByte : Nat → Option Nat) (hu : ∀ p, readByte p = none) :
+    b.containsFile h readByte key = .needAdditionalCheck := by
+  unfold Bloom.containsFile
+  split
+  · rfl
+  · cases hp : Bloom.probeFile readByte b.bufferStartPosition (Bloom.positions h b.k b.bits key) with
+    | needAdditionalCheck => rfl
+    | notContains =>
+      obtain ⟨i, _, byte, hr, _⟩ := probe_file_absent_has_witness readByte _ _ hp
+      rw [hu] at hr; cases hr
+
+/-- non-vacuity: a filter with bits and hashers, and a provider that fails on every read -/
+example : ({ inner := none, bits := 64, k := 2, cfg := BloomConfig.empty } : Bloom).containsFile
+    (fun i x => i + x) (fun _ => none) (7 : Key) = .needAdditionalCheck :=
+  bloom_unreadable_file_needs_check _ _ _ _ (fun _ => rfl)
+
+
 end Pearl.C10
 
 open Pearl.C10 in
@@ -580,6 +625,8 @@ open Pearl.C10 in
 #print axioms Pearl.C10.check_filter_no_fn_stack
 #print axioms Pearl.C10.container_check_filter_no_fn_stack
 #print axioms Pearl.C10.toyStackContainer_inv
+#print axioms Pearl.C10.probe_file_absent_has_witness
+#print axioms Pearl.C10.bloom_unreadable_file_needs_check
 
 /-
 NOT YET PROVED (none of the requested statements is missing)
